@@ -400,3 +400,197 @@ Proof.
         destruct (Ok ts ltac:(lia)) as (e1 & G1 & _). rewrite <- P1, C1, G0 in G1. discriminate. }
       rewrite (db_get_puts _ _ _ _ Hwf), G0, (fold_win1_none _ _ _ Hn). reflexivity.
 Qed.
+
+(* ------------------------------------------------------------------------------------ *)
+(* Commit: fresh versions *)
+
+Definition fresh_entries (d : lsm) (es : list entry) : Prop :=
+  (forall e x, In e es -> In x (all_entries d) -> e_key x = e_key e -> e_ver x < e_ver e) /\
+  (forall a b, In a es -> In b es -> e_key a = e_key b -> e_ver a = e_ver b -> norm a = norm b).
+
+Lemma commit_inv d v gc todel it dmax now es v' pes :
+  Inv d v gc todel it dmax now -> fresh_entries d es -> write_req v es = (v', pes) ->
+  Inv (apply_entries d pes) v' gc todel it dmax now.
+Proof.
+  intros I [F1 F2] W.
+  pose proof (i_wf _ _ _ _ _ _ _ I) as Hwf.
+  pose proof (fresh_next_of_bound _ (i_bound _ _ _ _ _ _ _ I)) as Hfn.
+  pose proof (write_req_placed _ _ _ _ Hfn W) as Hpl.
+  destruct (write_req_ext _ _ _ _ Hfn W) as [Hext Hgone].
+  eapply puts_inv_core; eauto.
+  { intros e x He Hx Hk Hv. specialize (F1 e x He Hx Hk). lia. }
+  destruct gc as [g|]; auto.
+  destruct (i_gc _ _ _ _ _ _ _ I) as (Hfid & Hns & Hg).
+  split; [destruct (write_req_max _ _ _ _ W); lia|]. split; auto.
+  intros Hsc. destruct (Hg Hsc) as [Hwb HJ]. split.
+  - intros idx w Hin. destruct (Hwb _ _ Hin) as [(rs & r & R1 & R2 & R3) Ok]. split.
+    + destruct (Hext _ _ R1) as [more R1']. exists (rs ++ more), r. split; auto. split; auto.
+      now apply nth_error_app_l.
+    + intros ts Hts. destruct (Ok ts Hts) as (e & G & Hle & Heq).
+      destruct (puts_winner_exists _ _ pes _ _ _ _ _ I _ _ _ G) as (x & Gx & Hx).
+      exists x. split; auto. split; [lia|]. intros Hxv.
+      destruct (puts_winner _ _ pes _ _ _ _ _ I _ _ _ Gx) as [(N1 & N2 & _)|(O1 & _)].
+      * exfalso. destruct (Forall2_in_r _ _ _ _ Hpl N1) as (e' & He' & (P1 & P2 & _)).
+        destruct (db_get_some _ _ _ _ Hwf G) as (Ein & Ek & _).
+        apply cand_spec in N2. destruct N2 as [N2 _].
+        specialize (F1 e' e He' Ein ltac:(congruence)). lia.
+      * rewrite G in O1. injection O1 as <-.
+        destruct (db_get_some _ _ _ _ Hwf G) as (Ein & _).
+        rewrite (puts_old_gderef _ _ _ _ _ _ _ _ _ _ I W e Ein). apply Heq. lia.
+  - intros k ts x idx Hts G Hp.
+    destruct (puts_winner _ _ pes _ _ _ _ _ I k ts x G) as [(N1 & _)|(O1 & _)].
+    + exfalso. pose proof (puts_new_fid _ _ _ _ _ _ _ _ _ _ I W x _ _ N1 Hp). lia.
+    + eauto.
+Qed.
+
+(* ------------------------------------------------------------------------------------ *)
+(* flush and compaction: the tree is re-shaped, entries may disappear *)
+
+Definition keeps_winners (d d' : lsm) (D : N) : Prop :=
+  forall k ts e, D <= ts -> db_get d' k ts = Some e -> db_get d k ts = Some e.
+
+Definition keeps_pending (d' : lsm) (gc : option gcst) : Prop :=
+  match gc with
+  | Some g => forall idx w, In (idx, w) (g_wb g) -> forall ts, e_ver w <= ts ->
+                exists e', db_get d' (e_key w) ts = Some e' /\ e_ver w <= e_ver e'
+  | None => True
+  end.
+
+Lemma reshape_inv d d' v gc todel it dmax D now :
+  Inv d v gc todel it dmax now -> lsm_wf d' ->
+  (forall x, In x (all_entries d') -> In x (all_entries d)) ->
+  keeps_winners d d' D -> keeps_pending d' gc ->
+  Inv d' v gc todel it (N.max dmax D) now.
+Proof.
+  intros I Hwf' Hsub HP HC.
+  pose proof (i_wf _ _ _ _ _ _ _ I) as Hwf.
+  constructor; auto.
+  - intros e He Hp. apply (i_tree _ _ _ _ _ _ _ I); auto.
+  - intros a b Ha Hb. apply (i_agree _ _ _ _ _ _ _ I); auto.
+  - intros k ts e Hts G. apply (i_safe _ _ _ _ _ _ _ I k ts); [lia|]. apply HP; auto. lia.
+  - apply (i_bound _ _ _ _ _ _ _ I).
+  - apply (i_gone _ _ _ _ _ _ _ I).
+  - apply (i_todel_lt _ _ _ _ _ _ _ I).
+  - intros f Hf. destruct (i_todel _ _ _ _ _ _ _ I f Hf) as [A B]. split; auto.
+    intros k ts e idx Hts G Hp. apply (B k ts e idx); [lia| |auto]. apply HP; auto. lia.
+  - destruct gc as [g|]; auto. destruct (i_gc _ _ _ _ _ _ _ I) as (Hfid & Hns & Hg).
+    split; auto. split; auto. intros Hsc. destruct (Hg Hsc) as [Hwb HJ]. split.
+    + intros idx w Hin. pose proof (Hwb _ _ Hin) as Ok. split; [exact (proj1 Ok)|].
+      intros ts Hts. destruct (HC idx w Hin ts Hts) as (e' & G' & Hle). exists e'. split; auto. split; auto.
+      intros Heq. destruct (wb_ok_winner _ _ _ _ _ Hwf Ok) as (e0 & _ & E1 & E2 & E3 & E4).
+      destruct (db_get_some _ _ _ _ Hwf' G') as (Ein & Ek & _).
+      rewrite <- E2. apply (i_agree _ _ _ _ _ _ _ I); auto; congruence.
+    + intros k ts e idx Hts G Hp. apply (HJ k ts e idx); [lia| |auto]. apply HP; auto. lia.
+Qed.
+
+Lemma flush_wf d id : lsm_wf d -> lsm_wf (flush_oldest (rotate d) id).
+Proof.
+  intros (Hmt & Himm & Hlev). unfold flush_oldest, rotate, lsm_wf. cbn [l_mt l_imm l_levels].
+  assert (Hall: Forall sorted (l_imm d ++ [l_mt d])) by (apply Forall_app; split; auto).
+  destruct (l_imm d ++ [l_mt d]) as [|m r] eqn:E; cbn [l_mt l_imm l_levels].
+  - split; [constructor|]. split; auto.
+  - inversion Hall as [|? ? Hm Hr]; subst. split; [constructor|]. split; auto.
+    destruct m as [|e0 m']; auto.
+    destruct (l_levels d) as [|l0 rest]; cbn [add_l0].
+    + split; [|constructor]. constructor; [exact Hm|constructor].
+    + destruct Hlev as [H0 Hrest]. split; auto. apply Forall_app. split; auto.
+Qed.
+
+Lemma flush_inv d v gc todel it dmax now id :
+  Inv d v gc todel it dmax now -> Inv (flush_oldest (rotate d) id) v gc todel it dmax now.
+Proof.
+  intros I. pose proof (i_wf _ _ _ _ _ _ _ I) as Hwf. pose proof (flush_wf d id Hwf) as Hwf'.
+  assert (Hm: N.max dmax 0 = dmax) by lia. rewrite <- Hm.
+  apply (reshape_inv d); auto.
+  - intros x. now rewrite flush_all_entries.
+  - intros k ts e _. now rewrite flush_db_get.
+  - unfold keeps_pending. destruct gc as [g|]; auto. intros idx w Hin ts Hts.
+    destruct (i_gc _ _ _ _ _ _ _ I) as (_ & Hns & Hg).
+    destruct (g_scanned g) eqn:Sc; [|rewrite (Hns eq_refl) in Hin; contradiction].
+    destruct (Hg eq_refl) as [Hwb _]. destruct (Hwb _ _ Hin) as [_ Ok].
+    destruct (Ok ts Hts) as (e & G & Hle & _). exists e. rewrite flush_db_get by assumption. auto.
+Qed.
+
+(* ------------------------------------------------------------------------------------ *)
+(* the remaining steps *)
+
+Lemma now_inv d v gc todel it dmax now now' :
+  Inv d v gc todel it dmax now -> now <= now' -> Inv d v gc todel it dmax now'.
+Proof.
+  intros I Hn.
+  assert (Hd: forall e, deadb now e -> deadb now' e).
+  { intros e. unfold deadb. now apply deleted_or_expired_mono_c. }
+  constructor; try (apply I).
+  - intros k ts e Hts G. destruct (i_safe _ _ _ _ _ _ _ I k ts e Hts G); auto.
+  - intros f Hf. destruct (i_todel _ _ _ _ _ _ _ I f Hf) as [A B]. split; auto. intros. eapply Hd, B; eauto.
+  - destruct gc as [g|]; auto. destruct (i_gc _ _ _ _ _ _ _ I) as (A & B & C). split; auto. split; auto.
+    intros Hsc. destruct (C Hsc) as [C1 C2]. split; auto. intros k ts e idx Hts G Hp.
+    destruct (C2 k ts e idx Hts G Hp); auto.
+Qed.
+
+Lemma iters_inv d v gc todel it it' dmax now :
+  Inv d v gc todel it dmax now -> (todel = [] \/ it' = true) -> Inv d v gc todel it' dmax now.
+Proof.
+  intros I H. constructor; try (apply I).
+  intros f Hf. destruct (i_todel _ _ _ _ _ _ _ I f Hf) as [A B]. split; auto.
+  destruct H as [->|H]; [contradiction|auto].
+Qed.
+
+Lemma gcstart_inv d v todel it dmax now fid clamp :
+  Inv d v None todel it dmax now -> fid < v_max v ->
+  Inv d v (Some (mkGc fid clamp false [])) todel it dmax now.
+Proof.
+  intros I Hf. constructor; try (apply I). cbn. split; auto. split; auto. discriminate.
+Qed.
+
+Lemma gcend_inv d v g todel it dmax now :
+  Inv d v (Some g) todel it dmax now -> Inv d v None todel it dmax now.
+Proof. intros I. constructor; try (apply I). exact Logic.I. Qed.
+
+Lemma gcscan_inv d v g todel it dmax now rs :
+  Inv d v (Some g) todel it dmax now -> vfind (v_files v) (g_fid g) = Some rs ->
+  Inv d v (Some (mkGc (g_fid g) (g_clamp g) true (gc_scan d now (g_fid g) 0 rs))) todel it dmax now.
+Proof.
+  intros I Hf. constructor; try (apply I). cbn [g_fid g_scanned g_wb].
+  destruct (i_gc _ _ _ _ _ _ _ I) as (A & _). split; auto. split; [discriminate|]. intros _. split.
+  - intros idx w Hin. eapply scan_wb_ok; eauto.
+  - intros k ts e idx _ G Hp. eapply scan_J; eauto.
+Qed.
+
+Lemma remove_inv d v gc todel it dmax now fs :
+  Inv d v gc todel it dmax now ->
+  (forall f, In f fs -> f < v_max v /\
+     forall k ts e idx, dmax <= ts -> db_get d k ts = Some e -> points_to e f idx -> deadb now e) ->
+  forall todel', (forall f, In f todel' -> In f todel) ->
+  Inv d (remove_fids fs v) gc todel' it dmax now.
+Proof.
+  intros I Hfs todel' Hsub. constructor; try (apply I); cbn [remove_fids v_files v_max v_gone].
+  - intros k ts e Hts G. destruct (i_safe _ _ _ _ _ _ _ I k ts e Hts G) as [H|H]; auto.
+    destruct (deleted_or_expired e now) eqn:D; [now left|]. right. intros f Hf.
+    unfold remove_fids. cbn [v_gone]. apply gone_false_iff. intros Hin. apply in_app_or in Hin.
+    destruct Hin as [Hin|Hin].
+    + destruct (ptr_fid_some _ _ Hf) as [idx Hp]. destruct (Hfs f Hin) as [_ Hdead].
+      specialize (Hdead k ts e idx Hts G Hp). unfold deadb in Hdead. congruence.
+    + specialize (H f Hf). apply gone_false_iff in H. contradiction.
+  - intros f Hin. apply in_app_or in Hin. destruct Hin as [Hin|Hin].
+    + now destruct (Hfs f Hin).
+    + now apply (i_gone _ _ _ _ _ _ _ I).
+  - intros f Hf. apply (i_todel_lt _ _ _ _ _ _ _ I). auto.
+  - intros f Hf. apply (i_todel _ _ _ _ _ _ _ I). auto.
+Qed.
+
+Lemma defer_inv d v g todel it dmax now :
+  Inv d v (Some g) todel it dmax now -> g_scanned g = true -> g_wb g = [] -> it = true ->
+  Inv d v (Some g) (todel ++ [g_fid g]) it dmax now.
+Proof.
+  intros I Hsc Hwb Hit. destruct (i_gc _ _ _ _ _ _ _ I) as (A & _ & C). destruct (C Hsc) as [_ HJ].
+  constructor; try (apply I).
+  - intros f Hf. apply in_app_or in Hf. destruct Hf as [Hf|[<-|[]]]; auto. now apply (i_todel_lt _ _ _ _ _ _ _ I).
+  - intros f Hf. apply in_app_or in Hf. destruct Hf as [Hf|[<-|[]]]; [now apply (i_todel _ _ _ _ _ _ _ I)|].
+    split; auto. intros k ts e idx Hts G Hp. destruct (HJ k ts e idx Hts G Hp) as [H|H]; auto.
+    rewrite Hwb in H. contradiction.
+Qed.
+
+(* a read at or above dmax does not notice the removal of unreferenced files *)
+Lemma remove_gvis v fs d now k ts : gvis (remove_fids fs v) d now k ts = gvis v d now k ts.
+Proof. reflexivity. Qed.
